@@ -567,10 +567,16 @@ package logql
 //@   ensures[accepts-string-matcher] old(peekTok(p)) == lexer.Ident && (tokType(p, old(p.pos)+1) == lexer.Eq || tokType(p, old(p.pos)+1) == lexer.NotEq) && tokType(p, old(p.pos)+2) == lexer.String &&
 //@       len(p.tokens) > old(p.pos)+2 && (rest_called ==> rest_r1 == nil) ==> ret1 == nil
 
+//@ scope label.go
+
+// Label regexes match the whole value: the pattern is wrapped into ^(?:...)$ before compiling.
 //@ func compileLabelRegex
-//@   trusted
+//@   capture rc = call(regexp.Compile, 0)
 //@   modifies nothing
 //@   ensures ret1 == nil ==> ret0 != nil
+//@   ensures[anchored-at-both-ends] rc_called && rc_a0 == "^(?:" + re + ")$" && ret0 == rc_r0 && same(ret1, rc_r1)
+
+//@ scope parser_pipeline.go
 
 // ---- C05: selectors.
 
@@ -753,7 +759,9 @@ package logql
 
 //@ scope label.go
 
-// Frame only: validation reads its argument.
+// A label name is non-empty, starts with a letter or underscore and continues with letters,
+// digits, underscores (and dots when allowed).
 //@ func IsValidLabel
-//@   trusted
 //@   modifies nothing
+//@   ensures[empty-name-rejected] len(s) == 0 ==> ret0 != nil
+//@   loop 0 modifies nothing
